@@ -30,7 +30,7 @@ func genRootNode(id string) *rapid.Generator[node] {
 		n := node{ID: id, Parent: -1,
 			Max:   rapid.Int64Range(1, 4).Draw(t, "max"),
 			Every: rapid.Int64Range(1, 5).Draw(t, "interval"),
-			Unit:  rapid.SampledFrom([]string{"second", "second", "second", "minute"}).Draw(t, "unit")}
+			Unit:  rapid.SampledFrom(windowUnits).Draw(t, "unit")}
 		if rapid.IntRange(0, 3).Draw(t, "grouped") == 0 {
 			n.GroupBy = "x-g"
 		}
